@@ -118,9 +118,14 @@ def run_nice(acc, values):
             if r[0] != "ok":
                 viols.append((f"nice_set_raised:{r[0]}", f"nice({v}) -> {r[1]!r}"))
             else:
-                got, k = c.p.nice(), os.getpriority(os.PRIO_PROCESS, c.target.pid)
+                k = os.getpriority(os.PRIO_PROCESS, c.target.pid)
+                try:
+                    got = c.p.nice()
+                except Exception as e:  # noqa: BLE001
+                    got = f"raised {e!r}"
+                    viols.append((f"nice_get_raised:{type(e).__name__}", f"nice() with kernel niceness {k} -> {e!r}"))
                 acc.count("kernel_readbacks")
-                if got != v or k != v:
+                if (got != v and not isinstance(got, str)) or k != v:
                     viols.append(("nice_readback_wrong", f"nice({v}): psutil get {got} kernel {k}"))
             acc.case(case, tb["nice"] != v, viols, key=harness.chash(["nice", v, tb["nice"]]))
         for bad in (20, 21, 100, -21, -100):
@@ -146,11 +151,16 @@ def run_ionice(acc):
                 if r[0] != "ok":
                     viols.append((f"ionice_set_raised:{r[0]}", f"ionice({k},{v}) -> {r[1]!r}"))
                 else:
-                    g = c.p.ionice()
                     kr = raw_ioprio(c.target.pid)
+                    try:
+                        g = c.p.ionice()
+                        gv = (int(g.ioclass), g.value)
+                    except Exception as e:  # noqa: BLE001
+                        gv = None
+                        viols.append((f"ionice_get_raised:{type(e).__name__}", f"ionice() with kernel value {kr} -> {e!r}"))
                     acc.count("kernel_readbacks")
-                    if (int(g.ioclass), g.value) != want or kr != want:
-                        viols.append(("ionice_readback_wrong", f"ionice({k},{v}): psutil get {g} kernel {kr}"))
+                    if (gv is not None and gv != want) or kr != want:
+                        viols.append(("ionice_readback_wrong", f"ionice({k},{v}): psutil get {gv} kernel {kr}"))
                 acc.case(case, tb["ioprio"] != want, viols, key=harness.chash(["ionice", k, v, tb["ioprio"]]))
         invalid = [(k, v) for k in (1, 2) for v in (-1, 8, 9, 100, -100, 2**31)] + [(k, v) for k in (0, 3) for v in range(1, 9)]
         for k, v in invalid:
@@ -204,9 +214,14 @@ def run_affinity(acc, shard):
             if r[0] != "ok":
                 viols.append((f"affinity_set_raised:{r[0]}", f"cpu_affinity({cpus}) -> {r[1]!r}"))
             else:
-                g, k = c.p.cpu_affinity(), sorted(os.sched_getaffinity(c.target.pid))
+                k = sorted(os.sched_getaffinity(c.target.pid))
+                try:
+                    g = c.p.cpu_affinity()
+                except Exception as e:  # noqa: BLE001
+                    g = None
+                    viols.append((f"affinity_get_raised:{type(e).__name__}", f"cpu_affinity() with kernel mask {k} -> {e!r}"))
                 acc.count("kernel_readbacks")
-                if g != want or k != want:
+                if (g is not None and g != want) or k != want:
                     viols.append(("affinity_readback_wrong", f"cpu_affinity({cpus}): psutil get {g} kernel {k}"))
             acc.case(case, tb["aff"] != want, viols, key=harness.chash(["aff", want, tb["aff"]]))
             n += 1
@@ -228,7 +243,10 @@ def run_affinity(acc, shard):
                         viols.append((mech, f"cpu_affinity([]) after {prev}: kernel {k}, eligible {eligible}"))
                 acc.case(case, prev != eligible, viols, key=harness.chash(["aff_empty", prev]))
         hi = max(eligible) + 1
-        for bad in ([hi], [hi, hi + 1], [999], [1023], [1024], [4096], [10**6], [-1], [-1, -2], [2**31], [2**70]):
+        e0, e1 = eligible[0], eligible[-1]
+        alias = [[2**32 + e0], [2**32 + e1], [2**32], [2**33 + e0], [2**62 + e1], [-2**32 + e0], [-2**40 + e1], [2**16 + e0], [2**31 + e0],
+                 [2**32 + e0, 2**32 + e1], [2**63 - 1], [-2**63]]
+        for bad in [[hi], [hi, hi + 1], [999], [1023], [1024], [4096], [10**6], [-1], [-1, -2], [2**31], [2**70]] + alias:
             case = dict(kind="affinity_invalid", cpus=[str(x) if abs(x) > 2**62 else x for x in bad])
             r, viols, tb = c.guarded(lambda: c.p.cpu_affinity(bad), case)
             acc.count("invalid_requests_checked")
